@@ -12,24 +12,17 @@ package v0
 
 import (
 	"fmt"
-	"net"
 	"os"
 	"strings"
 	"sync"
 	"testing"
 	"time"
 
-	"github.com/gogo/protobuf/proto"
-
-	cfg "github.com/tendermint/tendermint/config"
-	"github.com/tendermint/tendermint/crypto/ed25519"
 	"github.com/tendermint/tendermint/internal/verif/c13hand"
 	"github.com/tendermint/tendermint/internal/verif/c13kit"
 	"github.com/tendermint/tendermint/internal/verif/vr"
 	"github.com/tendermint/tendermint/libs/log"
-	"github.com/tendermint/tendermint/libs/service"
 	"github.com/tendermint/tendermint/p2p"
-	"github.com/tendermint/tendermint/p2p/conn"
 	bcproto "github.com/tendermint/tendermint/proto/tendermint/blockchain"
 )
 
@@ -39,59 +32,11 @@ type c13Case struct {
 	Reverse  bool            `json:"reverse"` // hold the first answers until every height was asked, then deliver highest first
 }
 
-// ---- mock peer ----
-
-type c13Peer struct {
-	service.BaseService
-	id    p2p.ID
-	h     int64
-	k     int
-	seq   int
-	net   *c13Net
-	asked bool
-	resp  *c13kit.Response
-}
+type c13Peer = c13hand.Peer
 
 type c13Event struct {
 	peer   *c13Peer
 	height int64 // block request
-}
-
-func (p *c13Peer) FlushStop()           { _ = p.Stop() }
-func (p *c13Peer) OnStop() {
-	if p.net.trace != nil {
-		p.net.trace("stopped peer(h=%d,k=%d)", p.h, p.k)
-	}
-}
-func (p *c13Peer) ID() p2p.ID           { return p.id }
-func (p *c13Peer) RemoteIP() net.IP     { return net.IPv4(127, 0, byte(p.seq>>8), byte(p.seq)) }
-func (p *c13Peer) RemoteAddr() net.Addr { return &net.TCPAddr{IP: p.RemoteIP(), Port: 20000 + p.seq} }
-func (p *c13Peer) IsOutbound() bool     { return true }
-func (p *c13Peer) IsPersistent() bool   { return false }
-func (p *c13Peer) CloseConn() error     { return nil }
-func (p *c13Peer) NodeInfo() p2p.NodeInfo {
-	return p2p.DefaultNodeInfo{DefaultNodeID: p.id, ListenAddr: "127.0.0.1:1"}
-}
-func (p *c13Peer) Status() conn.ConnectionStatus { return conn.ConnectionStatus{} }
-func (p *c13Peer) SocketAddr() *p2p.NetAddress {
-	return p2p.NewNetAddressIPPort(p.RemoteIP(), uint16(20000+p.seq))
-}
-func (p *c13Peer) Send(byte, []byte) bool          { return true }
-func (p *c13Peer) TrySend(byte, []byte) bool       { return true }
-func (p *c13Peer) Set(string, interface{})         {}
-func (p *c13Peer) Get(string) interface{}          { return nil }
-func (p *c13Peer) SetRemovalFailed()               {}
-func (p *c13Peer) GetRemovalFailed() bool          { return false }
-func (p *c13Peer) TrySendEnvelope(e p2p.Envelope) bool { return p.SendEnvelope(e) }
-func (p *c13Peer) SendEnvelope(e p2p.Envelope) bool {
-	if m, ok := e.Message.(*bcproto.BlockRequest); ok {
-		select {
-		case p.net.events <- c13Event{peer: p, height: m.Height}:
-		default:
-			return false
-		}
-	}
-	return true
 }
 
 // ---- network of one case ----
@@ -119,18 +64,13 @@ type c13Writer struct {
 
 func (w c13Writer) Write(b []byte) (int, error) { w.f("%s", strings.TrimSpace(string(b))); return len(b), nil }
 
-var c13Seq int
 
 func c13NewNet(chain *c13kit.Chain, st c13kit.Strategy) *c13Net {
 	n := &c13Net{chain: chain, node: chain.NewNode(), events: make(chan c13Event, 4096), cur: map[int64]*c13Peer{},
 		nextK: map[int64]int{}, strat: st}
 	n.bcR = NewBlockchainReactor(n.node.Genesis.Copy(), n.node.BlockExec, n.node.BlockStore, true)
 	n.bcR.SetLogger(log.NewNopLogger())
-	nodeKey := p2p.NodeKey{PrivKey: ed25519.GenPrivKeyFromSecret([]byte("verif-c13-node"))}
-	ni := p2p.DefaultNodeInfo{DefaultNodeID: nodeKey.ID(), ListenAddr: "127.0.0.1:1", Network: c13kit.ChainID, Moniker: "c13"}
-	tr := p2p.NewMultiplexTransport(ni, nodeKey, conn.DefaultMConnConfig())
-	n.sw = p2p.NewSwitch(cfg.DefaultP2PConfig(), tr)
-	n.sw.SetLogger(log.NewNopLogger())
+	n.sw = c13hand.NewSwitch()
 	n.hand = c13hand.NewReactor(chain, n.node)
 	n.sw.AddReactor("BLOCKCHAIN", n.bcR)
 	n.sw.AddReactor("CONSENSUS", n.hand)
@@ -141,22 +81,24 @@ func (n *c13Net) deliver(p *c13Peer, m *bcproto.Message) {
 	if !p.IsRunning() {
 		return // a stopped peer's connection is gone
 	}
-	bz, err := proto.Marshal(m)
-	if err != nil {
-		panic(err)
-	}
-	n.bcR.Receive(BlockchainChannel, p, bz)
+	n.bcR.Receive(BlockchainChannel, p, c13hand.Wire(m))
 }
 
 func (n *c13Net) addPeer(h int64) *c13Peer {
-	c13Seq++
 	k := n.nextK[h]
 	n.nextK[h] = k + 1
-	p := &c13Peer{h: h, k: k, seq: c13Seq % 60000, net: n, id: p2p.ID(fmt.Sprintf("%030x%02x%08x", 0xc13, h, c13Seq))}
-	p.BaseService = *service.NewBaseService(log.NewNopLogger(), "c13Peer", p)
-	if err := p.Start(); err != nil {
-		panic(err)
-	}
+	p := c13hand.NewPeer(h, k, func(p *c13Peer, height int64) bool {
+		select {
+		case n.events <- c13Event{peer: p, height: height}:
+			return true
+		default:
+			return false
+		}
+	}, func(p *c13Peer) {
+		if n.trace != nil {
+			n.trace("stopped peer(h=%d,k=%d)", p.H, p.K)
+		}
+	})
 	n.peers = append(n.peers, p)
 	n.cur[h] = p
 	if n.trace != nil {
@@ -171,13 +113,13 @@ func (n *c13Net) addPeer(h int64) *c13Peer {
 func (n *c13Net) inPool(p *c13Peer) bool {
 	n.bcR.pool.mtx.Lock()
 	defer n.bcR.pool.mtx.Unlock()
-	_, ok := n.bcR.pool.peers[p.id]
+	_, ok := n.bcR.pool.peers[p.PID]
 	return ok
 }
 
 func (n *c13Net) answer(p *c13Peer) {
-	if p.resp.Msg != nil {
-		n.deliver(p, p.resp.Msg)
+	if p.Resp.Msg != nil {
+		n.deliver(p, p.Resp.Msg)
 	}
 }
 
@@ -219,7 +161,7 @@ const c13CaseTimeout = 90 * time.Second
 // c13Run executes one case on a fresh node.
 func c13Run(chain *c13kit.Chain, c c13Case) (res c13Result) {
 	if c13NeedsTimeout(c.Strategy) {
-		peerTimeout = 300 * time.Millisecond // package variable "so we can override with tests"; only unanswered requests wait for it
+		peerTimeout = 200 * time.Millisecond // package variable "so we can override with tests"; only unanswered requests wait for it
 	} else {
 		peerTimeout = 15 * time.Second
 	}
@@ -258,14 +200,20 @@ LOOP:
 		select {
 		case ev := <-n.events:
 			p := ev.peer
-			trace("request h=%d to peer(h=%d,k=%d) asked=%v running=%v", ev.height, p.h, p.k, p.asked, p.IsRunning())
-			if p.asked || ev.height != p.h {
+			trace("request h=%d to peer(h=%d,k=%d) asked=%v running=%v", ev.height, p.H, p.K, p.Asked, p.IsRunning())
+			if ev.height != p.H {
 				diag("unexpected_request")
-				res.Notes = append(res.Notes, fmt.Sprintf("request for height %d reached peer(h=%d,k=%d) asked=%v in %s", ev.height, p.h, p.k, p.asked, c.Strategy))
+				res.Notes = append(res.Notes, fmt.Sprintf("request for height %d reached peer(h=%d,k=%d) in %s", ev.height, p.H, p.K, c.Strategy))
 				continue
 			}
-			p.asked = true
-			p.resp = chain.Respond(c.Strategy.Next(p.h, p.k), p.h)
+			if p.Asked {
+				// the requester's 30s retry timer re-requests even a block it already holds: a peer answers again
+				diag("repeated_request_answered_again")
+				n.answer(p)
+				continue
+			}
+			p.Asked = true
+			p.Resp = chain.Respond(c.Strategy.Next(p.H, p.K), p.H)
 			if holding {
 				held = append(held, p)
 				if len(held) == c13kit.Tip+1 {
@@ -273,7 +221,7 @@ LOOP:
 						// highest height first
 						var hp *c13Peer
 						for _, q := range held {
-							if q.h == int64(i+1) {
+							if q.H == int64(i+1) {
 								hp = q
 							}
 						}
@@ -318,7 +266,7 @@ LOOP:
 		for {
 			pending := false
 			for _, p := range n.peers {
-				if p.asked && !p.resp.Usable && p.IsRunning() {
+				if p.Asked && !p.Resp.Usable && p.IsRunning() {
 					pending = true
 				}
 			}
@@ -349,8 +297,8 @@ LOOP:
 	if hr.Called {
 		tipLies := []string{}
 		for _, p := range n.peers {
-			if p.h == hr.Height+1 && p.asked {
-				tipLies = append(tipLies, p.resp.Lie.String())
+			if p.H == hr.Height+1 && p.Asked {
+				tipLies = append(tipLies, p.Resp.Lie.String())
 			}
 		}
 		if key, what := hr.Verdict("blockchain/v0", strings.Join(tipLies, ">")); key != "" {
@@ -372,26 +320,26 @@ LOOP:
 		return
 	}
 	for _, p := range n.peers {
-		if p.asked && !p.resp.Usable && p.IsRunning() {
-			res.Key = "blockchain/v0:peer-not-stopped-after:" + p.resp.Lie.String()
-			res.What = fmt.Sprintf("peer for height %d answered with %q (unusable), the node synced to the tip from other peers, and the lying peer is still connected", p.h, p.resp.Lie)
+		if p.Asked && !p.Resp.Usable && p.IsRunning() {
+			res.Key = "blockchain/v0:peer-not-stopped-after:" + p.Resp.Lie.String()
+			res.What = fmt.Sprintf("peer for height %d answered with %q (unusable), the node synced to the tip from other peers, and the lying peer is still connected", p.H, p.Resp.Lie)
 			res.Outcome = "violation"
 			return
 		}
 	}
 	stopped, kept := 0, 0
 	for _, p := range n.peers {
-		if !p.asked {
+		if !p.Asked {
 			continue
 		}
 		if p.IsRunning() {
 			kept++
-			if p.resp.Usable && !p.resp.Clean {
+			if p.Resp.Usable && !p.Resp.Clean {
 				diag("peer_with_padded_commit_kept")
 			}
 		} else {
 			stopped++
-			if p.resp.Usable && p.resp.Clean {
+			if p.Resp.Usable && p.Resp.Clean {
 				diag("honest_peer_stopped_as_collateral")
 			}
 		}
@@ -405,14 +353,14 @@ LOOP:
 }
 
 func TestVerifC13V0(t *testing.T) {
-	r := vr.Start("C13", "v0", 110*time.Second, 18*time.Minute)
+	r := vr.Start("C13", "v0", 100*time.Second, 18*time.Minute)
 	defer r.Finish()
 	defer c13hand.Cleanup()
 	r.Rule = "every adversary strategy with <= L lies over heights 1..5 of a 6-block canonical chain with a validator addition: (height, successive peer) -> lie from the menu; " +
 		"strategies are distinct by construction; non-trivial = at least one lie; each runs the real v0 reactor to the tip and through the hand-over"
 	r.Assume("ed25519 is a black box; the adversary holds one validator key (< 1/3) and cannot forge the others")
 	r.Assume("schedules inside the pool's goroutines are whatever the Go scheduler produces; the enumerated dimension is the adversary's strategy (plus two delivery orders)")
-	r.Assume("peerTimeout (a package variable) is lowered to 300ms in cases that contain unanswered requests")
+	r.Assume("peerTimeout (a package variable) is lowered to 200ms in cases that contain unanswered requests")
 	chain := c13kit.NewChain()
 	var rc c13Case
 	if rep, skip := r.ReplayCase(&rc); skip {
@@ -433,14 +381,14 @@ func TestVerifC13V0(t *testing.T) {
 		}
 		return
 	}
-	menu := []c13kit.Lie{}
-	for l := c13kit.Lie(1); l < c13kit.NLies; l++ {
-		if l == c13kit.Silence && !vr.Thorough() {
-			continue // identical to no-block for this reactor (a NoBlockResponse is only logged)
-		}
-		menu = append(menu, l)
-	}
+	// full menu up to one level below the deepest, core menu at the deepest level
 	maxLies := vr.Pick(2, 3)
+	menuFor := func(total int) []c13kit.Lie {
+		if total >= maxLies {
+			return c13kit.CoreMenu()
+		}
+		return c13kit.FullMenu()
+	}
 	k := 0
 	levelDone := -1
 	stop := false
@@ -450,7 +398,12 @@ func TestVerifC13V0(t *testing.T) {
 		if c.Strategy.NumLies() > 0 {
 			r.NTCount(1)
 		}
+		tc := time.Now()
 		res := c13Run(chain, c)
+		if d := time.Since(tc); d > 3*time.Second {
+			r.Note(fmt.Sprintf("slow case %.1fs natural=%v reverse=%v %s -> %s", d.Seconds(), c.Natural, c.Reverse, c.Strategy, res.Outcome))
+			r.Add("slow_cases", 1)
+		}
 		for _, d := range res.Diags {
 			r.Add("diag_"+d, 1)
 		}
@@ -492,7 +445,7 @@ func TestVerifC13V0(t *testing.T) {
 			r.Sample(map[string]interface{}{"strategy": c.Strategy.String(), "natural": c.Natural, "reverse": c.Reverse, "outcome": res.Outcome})
 		}
 	}
-	c13kit.Enumerate(menu, maxLies, func(s c13kit.Strategy) bool {
+	c13kit.Enumerate(menuFor, maxLies, func(s c13kit.Strategy) bool {
 		if stop {
 			return false
 		}
@@ -522,7 +475,7 @@ func TestVerifC13V0(t *testing.T) {
 	if !stop {
 		levelDone = maxLies
 	}
-	r.Bound = fmt.Sprintf("all strategies with <= %d lies (menu of %d lie kinds, heights 1..%d); asked for <= %d", levelDone, len(menu), c13kit.Tip+1, maxLies)
+	r.Bound = fmt.Sprintf("all strategies with <= %d lies (full menu of %d lie kinds below the deepest level, core menu of %d at the deepest; heights 1..%d); asked for <= %d", levelDone, len(c13kit.FullMenu()), len(c13kit.CoreMenu()), c13kit.Tip+1, maxLies)
 	if r.Shard == 0 {
 		r.Set("cases_enumerated", k)
 	}
